@@ -305,13 +305,32 @@ def run_case(case):
     return check_concat(case)
 
 
+# tag-free sources that are always checked: the empty source, single
+# characters, near-tag fragments alone and at the end of a text
+FIXED_SOUPS = ['', ' ', '\n', '\t\n', 'x', '0', '&', '<', '%', '&dtml',
+               '&dtml-', '&dtml.', '<dtml', '<!--', '<!-', '%(', ')s', ';',
+               '"', "'", '\r\n', 'é', '\x00', 'a\n', '\n\n', ' \n ',
+               'text &dtml', 'text <', 'a & b < c > d " e \' f % g',
+               '100% (sure)', '&amp; &lt; &#39;', '-->', ']', '[', '\\']
+
+
 def plan(tier, seed):
     n = 500 if tier == "quick" else 6000
-    return [dict(seed=seed * 1000 + i, n=n) for i in range(16)]
+    return [dict(seed=seed * 1000 + i, n=n) for i in range(16)] + \
+        [dict(fixed=True)]
 
 
 def run_shard(shard):
     acc = Acc(ID, sample_every=53)
+    if shard.get('fixed'):
+        for text in FIXED_SOUPS:
+            case = dict(kind='soup', text=text)
+            fails, nt = check_soup(case)
+            acc.case(case, True, klass='fixed-soup',
+                     distinct_by_construction=True)
+            for b, msg in fails:
+                acc.fail(b, case, msg)
+        return acc.result()
     strat = strategy()
 
     def one(case):
